@@ -87,6 +87,11 @@ impl Rng {
     pub fn bytes(&mut self, n: usize) -> Vec<u8> {
         (0..n).map(|_| self.u8()).collect()
     }
+    /// Random bytes of a random length in 0..max_excl.
+    pub fn bytes_upto(&mut self, max_excl: usize) -> Vec<u8> {
+        let n = self.usize(max_excl);
+        self.bytes(n)
+    }
     /// Byte biased towards the interesting values 0x00 / 0xFF.
     pub fn edgy_u8(&mut self) -> u8 {
         match self.below(8) {
@@ -748,9 +753,17 @@ pub fn run_sharded<F>(ctx: &Ctx, n_shards: usize, f: F) -> Report
 where
     F: Fn(usize, &mut Report) + Sync,
 {
+    run_sharded_on(ctx.threads, n_shards, f)
+}
+
+/// Same, with an explicit worker count (workloads that mostly sleep use more workers than cores).
+pub fn run_sharded_on<F>(threads: usize, n_shards: usize, f: F) -> Report
+where
+    F: Fn(usize, &mut Report) + Sync,
+{
     let next = AtomicUsize::new(0);
     let merged = Mutex::new(Report::new());
-    let workers = ctx.threads.min(n_shards).max(1);
+    let workers = threads.min(n_shards).max(1);
     std::thread::scope(|s| {
         for _ in 0..workers {
             s.spawn(|| {
